@@ -43,8 +43,8 @@ def snap_meta(obj, skip=("objs", "maps")):
     out = []
     if dataclasses.is_dataclass(obj):
         for f in dataclasses.fields(obj):
-            if f.name in skip:
-                continue
+            if f.name in skip or f.name.startswith("_"):
+                continue  # (a field named _x is the object's private business - a cache - not a value of the chart)
             out.append((f.name, _snap_meta_value(getattr(obj, f.name, None))))
     return tuple(out)
 
@@ -107,7 +107,7 @@ def alpha_meta(obj, skip=("objs", "maps")) -> dict:
     out = {}
     if dataclasses.is_dataclass(obj):
         for f in dataclasses.fields(obj):
-            if f.name in skip:
+            if f.name in skip or f.name.startswith("_"):
                 continue
             v = getattr(obj, f.name, None)
             from reamber.base.lists.TimedList import TimedList
